@@ -44,7 +44,7 @@ type Funcall struct {
 
 // Call the function with the arguments provided.
 func (f *Funcall) Call(s *slip.Scope, args slip.List, depth int) (result slip.Object) {
-	slip.CheckArgCount(s, depth, f, args, 2, -1)
+	slip.CheckArgCount(s, depth, f, args, 1, -1)
 	fn := args[0]
 	d2 := depth + 1
 	caller := ResolveToCaller(s, fn, d2)
